@@ -1,4 +1,287 @@
-import FluentModel.Resolver
+import FluentProofs.ResolverTotal
+/-!
+# C06 — formatting is total and bounded
+
+Model: `FluentModel.Resolver` (function-for-function transcription of `resolver/*.rs`,
+`types/mod.rs` `matches`/`write`, `bundle.rs` `format_pattern`/`write_pattern`).
+
+All theorems quantify over every `Env` (bundle contents, functions, transform, formatter, arguments),
+every pattern / expression (any AST, parser-produced or not), every scope, every writer, every fuel.
+They are parametric in the limit: only `Generated.maxPlaceables ≤ 254` is used
+(`maxPlaceables_le_254` discharges it for the value extracted from the Rust source).
+
+Contracts (hypotheses, stated where used):
+* `hcat : ∀ n, env.category n ≠ none` — the plural rules of the bundle's first locale are total (C12);
+* `hS : ∀ p, Reach env p → depthPat p ≤ S` — `S` bounds the syntactic depth of every message/term
+  value and attribute value of the bundle.
+-/
 namespace FluentProofs.C06
-theorem placeholder : True := trivial
+open FluentModel FluentModel.Syntax FluentModel.Resolver FluentProofs.Resolver
+
+/-- the extracted limit fits the `u8` counter with room for the one increment past it -/
+theorem maxPlaceables_le_254 : Generated.maxPlaceables ≤ 254 := by decide
+
+/-! ## T1 `placeables_invariant` -/
+
+/-- **T1 placeables_invariant.**  Every function of the mutual block, at every fuel, whenever it returns
+`.ok`, relates the scope before (`sc`) and after (`sc'`) by `Step sc sc'`, i.e.
+
+* `ScopeOk sc → ScopeOk sc'` where `ScopeOk s := s.placeables ≤ maxPlaceables ∨
+  (s.placeables = maxPlaceables + 1 ∧ s.dirty = true)`;
+* `sc.placeables ≤ sc'.placeables` (the counter is monotone over the whole call);
+* `sc.dirty = true → sc'.dirty = true` (`dirty` is never reset);
+* `∃ l, sc'.errors = sc.errors ++ l ∧ l.count tooManyPlaceables = flip sc sc'` with
+  `flip sc sc' = 1` if `dirty` went `false → true` during the call and `0` otherwise: the log only
+  grows and `TooManyPlaceables` is appended exactly at the moment the guard trips. -/
+theorem placeables_invariant (hmax : Generated.maxPlaceables ≤ 254) (env : Env) (n : Nat) :
+    (∀ whole len els w sc w' sc', writeElems env n whole len els w sc = .ok (w', sc') → Step sc sc') ∧
+    (∀ p w sc w' sc', writePattern env n p w sc = .ok (w', sc') → Step sc sc') ∧
+    (∀ p e w sc w' sc', track env n p e w sc = .ok (w', sc') → Step sc sc') ∧
+    (∀ e w sc w' sc', writeExpr env n e w sc = .ok (w', sc') → Step sc sc') ∧
+    (∀ vs w sc w' sc', writeDefault env n vs w sc = .ok (w', sc') → Step sc sc') ∧
+    (∀ e w sc w' sc', writeInline env n e w sc = .ok (w', sc') → Step sc sc') ∧
+    (∀ e sc v sc', resolveInline env n e sc = .ok (v, sc') → Step sc sc') ∧
+    (∀ a sc r sc', getArguments env n a sc = .ok (r, sc') → Step sc sc') ∧
+    (∀ es sc vs sc', resolveList env n es sc = .ok (vs, sc') → Step sc sc') ∧
+    (∀ es sc vs sc', resolveNamed env n es sc = .ok (vs, sc') → Step sc sc') := by
+  have I := inv_all hmax env n
+  exact ⟨fun _ _ _ _ _ _ _ h => (I.writeElems _ _ _ _ _).step_of_ok h,
+    fun _ _ _ _ _ h => (I.writePattern _ _ _).step_of_ok h,
+    fun _ _ _ _ _ _ h => (I.track _ _ _ _).step_of_ok h,
+    fun _ _ _ _ _ h => (I.writeExpr _ _ _).step_of_ok h,
+    fun _ _ _ _ _ h => (I.writeDefault _ _ _).step_of_ok h,
+    fun _ _ _ _ _ h => (I.writeInline _ _ _).step_of_ok h,
+    fun _ _ _ _ h => (I.resolveInline _ _).step_of_ok h,
+    fun _ _ _ _ h => (I.getArguments _ _).step_of_ok h,
+    fun _ _ _ _ h => (I.resolveList _ _).step_of_ok h,
+    fun _ _ _ _ h => (I.resolveNamed _ _).step_of_ok h⟩
+
+/-- The final scope of a whole `format_pattern` call: the counter is at most `maxPlaceables + 1`, it is
+`maxPlaceables + 1` only if the guard tripped, and `TooManyPlaceables` is in the log exactly once if
+the guard tripped and not at all otherwise. -/
+theorem placeables_le (hmax : Generated.maxPlaceables ≤ 254) (env : Env) (fuel : Nat) (p : Pattern Bytes)
+    (w : Bytes) (sc : Scope) (h : resolvePattern env fuel p {} = .ok (w, sc)) :
+    sc.placeables ≤ Generated.maxPlaceables + 1 ∧
+    (sc.placeables = Generated.maxPlaceables + 1 → sc.dirty = true) ∧
+    sc.errors.count RErr.tooManyPlaceables = (if sc.dirty then 1 else 0) := by
+  have hst := (resolvePattern_good hmax env fuel p {}).step_of_ok h
+  obtain ⟨hok, hc⟩ := final_scope hst
+  refine ⟨?_, ?_, hc⟩
+  · rcases hok with h | ⟨h, _⟩ <;> omega
+  · intro he; rcases hok with h | ⟨_, h⟩
+    · omega
+    · exact h
+
+/-- `format_pattern` reports the limit at most once per call. -/
+theorem too_many_reported_at_most_once (hmax : Generated.maxPlaceables ≤ 254) (env : Env) (fuel : Nat)
+    (p : Pattern Bytes) (w : Bytes) (errs : List RErr) (h : formatPattern env fuel p = .ok (w, errs)) :
+    errs.count RErr.tooManyPlaceables ≤ 1 := by
+  unfold formatPattern at h
+  rcases hr : resolvePattern env fuel p {} with ⟨⟨w1, sc⟩⟩ | ⟨m⟩ | _ <;> rw [hr] at h <;> simp only [] at h
+  · cases h
+    have := (placeables_le hmax env fuel p w sc hr).2.2
+    rw [this]; split <;> omega
+  · cases h
+  · cases h
+
+/-- `write_pattern` reports the limit at most once per call. -/
+theorem too_many_reported_at_most_once_write (hmax : Generated.maxPlaceables ≤ 254) (env : Env) (fuel : Nat)
+    (p : Pattern Bytes) (w : Bytes) (errs : List RErr) (h : writePatternTop env fuel p = .ok (w, errs)) :
+    errs.count RErr.tooManyPlaceables ≤ 1 := by
+  unfold writePatternTop at h
+  rcases hr : writePattern env fuel p [] {} with ⟨⟨w1, sc⟩⟩ | ⟨m⟩ | _ <;> rw [hr] at h <;> simp only [] at h
+  · cases h
+    have hst := ((inv_all hmax env fuel).writePattern p [] {}).step_of_ok hr
+    rw [(final_scope hst).2]; split <;> omega
+  · cases h
+  · cases h
+
+/-- `Cyclic` is pushed by `track` exactly when the `travelled` stack contains the pattern
+(structural equality, as `Vec::contains` with the derived `PartialEq`): in that case `track` writes the
+error token, logs `Cyclic` and does not resolve the pattern … -/
+theorem cyclic_reported (env : Env) (n : Nat) (p : Pattern Bytes) (e : Inline Bytes) (w : Bytes) (sc : Scope)
+    (h : travelledContains sc.travelled p = true) :
+    track env (n + 1) p e w sc = .ok (w ++ braced (inlineWriteError e), sc.addError .cyclic) := by
+  simp [track, h]
+
+/-- … and otherwise `track` is exactly the resolution of the pattern with the pattern pushed on the
+stack (and popped afterwards): it logs nothing of its own. -/
+theorem not_cyclic_resolved (env : Env) (n : Nat) (p : Pattern Bytes) (e : Inline Bytes) (w : Bytes) (sc : Scope)
+    (h : travelledContains sc.travelled p = false) (w' : Bytes) (sc' : Scope)
+    (hr : track env (n + 1) p e w sc = .ok (w', sc')) :
+    ∃ sc1, writePattern env n p w { sc with travelled := sc.travelled ++ [p] } = .ok (w', sc1) ∧
+      sc'.errors = sc1.errors ∧ sc'.placeables = sc1.placeables ∧ sc'.dirty = sc1.dirty := by
+  simp only [track, h] at hr
+  rcases hw : writePattern env n p w { sc with travelled := sc.travelled ++ [p] } with ⟨⟨w1, sc1⟩⟩ | ⟨m⟩ | _ <;>
+    rw [hw] at hr <;> simp at hr
+  obtain ⟨rfl, rfl⟩ := hr
+  exact ⟨sc1, rfl, rfl, rfl, rfl⟩
+
+/-! ## T1 `no_panic` -/
+
+/-- **T1 no_panic.**  Under the contract that the plural rules are total, no function of the block,
+started in a `ScopeOk` scope, returns `.panic`, at any fuel: the `u8` counter cannot overflow
+(`ScopeOk` and `maxPlaceables ≤ 254`), `key.matches`'s `unwrap` is excluded by `hcat`, and
+`write_ref_error` is only called with message/term/function references. -/
+theorem no_panic (hmax : Generated.maxPlaceables ≤ 254) (env : Env) (hcat : ∀ n, env.category n ≠ none)
+    (n : Nat) (m : String) :
+    (∀ whole len els w sc, ScopeOk sc → writeElems env n whole len els w sc ≠ .panic m) ∧
+    (∀ p w sc, ScopeOk sc → writePattern env n p w sc ≠ .panic m) ∧
+    (∀ p e w sc, ScopeOk sc → track env n p e w sc ≠ .panic m) ∧
+    (∀ e w sc, ScopeOk sc → writeExpr env n e w sc ≠ .panic m) ∧
+    (∀ vs w sc, ScopeOk sc → writeDefault env n vs w sc ≠ .panic m) ∧
+    (∀ e w sc, ScopeOk sc → writeInline env n e w sc ≠ .panic m) ∧
+    (∀ e sc, ScopeOk sc → resolveInline env n e sc ≠ .panic m) ∧
+    (∀ a sc, ScopeOk sc → getArguments env n a sc ≠ .panic m) ∧
+    (∀ es sc, ScopeOk sc → resolveList env n es sc ≠ .panic m) ∧
+    (∀ es sc, ScopeOk sc → resolveNamed env n es sc ≠ .panic m) := by
+  have I := inv_all hmax env n
+  exact ⟨fun _ _ _ _ _ h => (I.writeElems _ _ _ _ _).not_panic h hcat,
+    fun _ _ _ h => (I.writePattern _ _ _).not_panic h hcat,
+    fun _ _ _ _ h => (I.track _ _ _ _).not_panic h hcat,
+    fun _ _ _ h => (I.writeExpr _ _ _).not_panic h hcat,
+    fun _ _ _ h => (I.writeDefault _ _ _).not_panic h hcat,
+    fun _ _ _ h => (I.writeInline _ _ _).not_panic h hcat,
+    fun _ _ h => (I.resolveInline _ _).not_panic h hcat,
+    fun _ _ h => (I.getArguments _ _).not_panic h hcat,
+    fun _ _ h => (I.resolveList _ _).not_panic h hcat,
+    fun _ _ h => (I.resolveNamed _ _).not_panic h hcat⟩
+
+/-- `format_pattern` and `write_pattern` never panic (any fuel, any bundle, any arguments). -/
+theorem format_no_panic (hmax : Generated.maxPlaceables ≤ 254) (env : Env) (hcat : ∀ n, env.category n ≠ none)
+    (fuel : Nat) (p : Pattern Bytes) (m : String) :
+    formatPattern env fuel p ≠ .panic m ∧ writePatternTop env fuel p ≠ .panic m := by
+  constructor
+  · unfold formatPattern
+    have := (resolvePattern_good hmax env fuel p {}).not_panic scopeOk_init hcat (m := m)
+    rcases hr : resolvePattern env fuel p {} with ⟨⟨w1, sc⟩⟩ | ⟨m'⟩ | _ <;> simp only []
+    · simp
+    · intro h; cases h; exact this hr
+    · simp
+  · unfold writePatternTop
+    have := ((inv_all hmax env fuel).writePattern p [] {}).not_panic scopeOk_init hcat (m := m)
+    rcases hr : writePattern env fuel p [] {} with ⟨⟨w1, sc⟩⟩ | ⟨m'⟩ | _ <;> simp only []
+    · simp
+    · intro h; cases h; exact this hr
+    · simp
+
+/-! ## T1 `format_total` (fuel sufficiency) -/
+
+/-- **Fuel sufficiency, joint form.**  `depth…` is the syntactic depth (number of nested model calls
+spent inside one AST, list spines included), `S` bounds `depthPat` of every pattern reachable through a
+reference, `R sc` is the number of counter increments still possible (`0` when dirty, else
+`maxPlaceables + 1 - placeables`), `P sc = maxPlaceables - placeables`, `G S r = r * (S + 1) + 3`.
+Started in a `ScopeOk` scope with the stated fuel, no function of the block runs out of fuel. -/
+theorem fuel_sufficient (hmax : Generated.maxPlaceables ≤ 254) (env : Env) (S : Nat)
+    (hS : ∀ p, Reach env p → depthPat p ≤ S) (n : Nat) :
+    (∀ whole len els w sc, ScopeOk sc → (if sc.dirty then 1 else depthElems els + G S (P sc)) ≤ n →
+      writeElems env n whole len els w sc ≠ .fuel) ∧
+    (∀ p w sc, ScopeOk sc → (if sc.dirty then 2 else 1 + depthElems p + G S (P sc)) ≤ n →
+      writePattern env n p w sc ≠ .fuel) ∧
+    (∀ p e w sc, ScopeOk sc → depthPat p ≤ S → (if sc.dirty then 3 else 1 + S + G S (P sc)) ≤ n →
+      track env n p e w sc ≠ .fuel) ∧
+    (∀ e w sc, ScopeOk sc → depthExpr e + G S (R sc) ≤ n → writeExpr env n e w sc ≠ .fuel) ∧
+    (∀ vs w sc, ScopeOk sc → depthVariants vs + G S (R sc) ≤ n → writeDefault env n vs w sc ≠ .fuel) ∧
+    (∀ e w sc, ScopeOk sc → depthInline e + G S (R sc) ≤ n → writeInline env n e w sc ≠ .fuel) ∧
+    (∀ e sc, ScopeOk sc → 1 + depthInline e + G S (R sc) ≤ n → resolveInline env n e sc ≠ .fuel) ∧
+    (∀ a sc, ScopeOk sc → depthArgs a + G S (R sc) ≤ n → getArguments env n a sc ≠ .fuel) ∧
+    (∀ es sc, ScopeOk sc → depthInlines es + G S (R sc) ≤ n → resolveList env n es sc ≠ .fuel) ∧
+    (∀ es sc, ScopeOk sc → depthNamed es + G S (R sc) ≤ n → resolveNamed env n es sc ≠ .fuel) := by
+  have T := tot_all hmax env S hS n
+  exact ⟨T.writeElems, T.writePattern, T.track, T.writeExpr, T.writeDefault, T.writeInline, T.resolveInline,
+    T.getArguments, T.resolveList, T.resolveNamed⟩
+
+/-- **T1 format_total.**  For every bundle whose message/term values and attribute values have syntactic
+depth ≤ `S`, every start pattern of depth ≤ `S`, every argument set, all (total) registered functions,
+transform and formatter: with fuel ≥ `fuelBound S = (maxPlaceables + 1) * (S + 1) + 2` both
+`format_pattern` and `write_pattern` return a string and an error list — not `.fuel`, not `.panic`. -/
+theorem format_total (hmax : Generated.maxPlaceables ≤ 254) (env : Env) (hcat : ∀ n, env.category n ≠ none)
+    (S : Nat) (hS : ∀ p, Reach env p → depthPat p ≤ S) (p : Pattern Bytes) (hp : depthPat p ≤ S)
+    (fuel : Nat) (hf : fuelBound S ≤ fuel) :
+    (∃ w errs, formatPattern env fuel p = .ok (w, errs)) ∧
+    (∃ w errs, writePatternTop env fuel p = .ok (w, errs)) := by
+  constructor
+  · have h1 := resolvePattern_ne_fuel hmax env S hS fuel p hp hf
+    have h2 := fun m => (resolvePattern_good hmax env fuel p {}).not_panic scopeOk_init hcat (m := m)
+    unfold formatPattern
+    rcases hr : resolvePattern env fuel p {} with ⟨⟨w1, sc⟩⟩ | ⟨m'⟩ | _
+    · exact ⟨w1, sc.errors, rfl⟩
+    · exact absurd hr (h2 m')
+    · exact absurd hr h1
+  · have h1 := (tot_all hmax env S hS fuel).writePattern p [] {} scopeOk_init
+      (Nat.le_trans (PN_init_le S p hp) hf)
+    have h2 := fun m => ((inv_all hmax env fuel).writePattern p [] {}).not_panic scopeOk_init hcat (m := m)
+    unfold writePatternTop
+    rcases hr : writePattern env fuel p [] {} with ⟨⟨w1, sc⟩⟩ | ⟨m'⟩ | _
+    · exact ⟨w1, sc.errors, rfl⟩
+    · exact absurd hr (h2 m')
+    · exact absurd hr h1
+
+/-! ## tests (non-vacuity witnesses on concrete bundles; `decide` on literals) -/
+section tests
+
+/-- a bundle given by an association list of messages (no terms, no functions, no arguments) -/
+def testEnv (msgs : List (Bytes × Pattern Bytes)) : Env where
+  msg := fun id => (msgs.find? (fun kv => kv.1 == id)).map (fun kv => ⟨kv.1, some kv.2, [], none⟩)
+  term := fun _ => none
+  fn := fun _ => none
+  useIsolating := false
+  transform := none
+  formatter := none
+  category := fun _ => some .other
+  tryNumber := fun b => .str b
+  unescape := id
+  customStr := id
+  args := none
+
+def ref (k : Nat) : PatElem Bytes := .placeable (.inline (.msg [109, 48 + k.toUInt8] none))
+
+/-- `m0 = { m0 }` -/
+def cyc : List (Bytes × Pattern Bytes) := [([109, 48], [ref 0])]
+
+/-- `m0 = x`, `m(k+1) = { mk }{ mk }{ mk }` for k < 5: a 3^5 = 243 > 100 bomb -/
+def bomb : List (Bytes × Pattern Bytes) :=
+  [([109, 48], [.text [120]]), ([109, 49], [ref 0, ref 0, ref 0]), ([109, 50], [ref 1, ref 1, ref 1]),
+   ([109, 51], [ref 2, ref 2, ref 2]), ([109, 52], [ref 3, ref 3, ref 3]), ([109, 53], [ref 4, ref 4, ref 4])]
+
+def check (r : RR (Bytes × List RErr)) (f : Bytes → List RErr → Bool) : Bool :=
+  match r with
+  | .ok (w, errs) => f w errs
+  | _ => false
+
+/-- test: the cyclic message formats to `{m0}` with exactly the error `Cyclic` -/
+example : check (formatPattern (testEnv cyc) (fuelBound 3) [ref 0])
+    (fun w errs => w == [123, 109, 48, 125] && errs == [RErr.cyclic]) = true := by decide +kernel
+
+/-- test: with one unit of fuel less than needed for the nesting the model does report `.fuel`
+(the fuel hypothesis of `format_total` is not vacuous) -/
+example : (match formatPattern (testEnv cyc) 3 [ref 0] with | .fuel => true | _ => false) = true := by
+  decide +kernel
+
+/-- test: the bomb trips the limit: exactly one `TooManyPlaceables`, output of at most 100 bytes + error tokens -/
+example : check (formatPattern (testEnv bomb) (fuelBound 6) [ref 5])
+    (fun w errs => errs.count RErr.tooManyPlaceables == 1 && errs.length == 1 && decide (w.length ≤ 200)) = true := by
+  decide +kernel
+
+
+theorem reach_testEnv (msgs : List (Bytes × Pattern Bytes)) (p : Pattern Bytes) (h : Reach (testEnv msgs) p) :
+    ∃ kv ∈ msgs, kv.2 = p := by
+  rcases h with ⟨id, m, hm, hv⟩ | ⟨id, t, ht, _⟩
+  · simp only [testEnv, Option.map_eq_some_iff] at hm
+    obtain ⟨kv, hf, rfl⟩ := hm
+    refine ⟨kv, List.mem_of_find?_eq_some hf, ?_⟩
+    rcases hv with hv | ⟨a, ha⟩
+    · simpa using hv
+    · simp [findAttr] at ha
+  · simp [testEnv] at ht
+
+/-- test: the hypotheses of `format_total` are satisfiable — instantiated on the bomb bundle (`S = 6`) -/
+example : ∃ w errs, formatPattern (testEnv bomb) (fuelBound 6) [ref 5] = .ok (w, errs) :=
+  (format_total maxPlaceables_le_254 (testEnv bomb) (fun _ => by simp [testEnv]) 6
+    (fun p h => by
+      obtain ⟨kv, hm, rfl⟩ := reach_testEnv bomb p h
+      exact (by decide : ∀ kv ∈ bomb, depthPat kv.2 ≤ 6) kv hm)
+    [ref 5] (by decide) _ (Nat.le_refl _)).1
+
+end tests
 end FluentProofs.C06
